@@ -35,6 +35,7 @@ package forwarder
 //@   ensures[C17,C17c] err == nil ==> !old(protoPaused(f, protocolID)) && protoSetIs(f, protocolID, true)
 //@   ensures[C17,C17c] err != nil ==> ks_i32 == old(ks_i32)
 //@   ensures[C17,C17c] okProto(protocolID) && !old(protoPaused(f, protocolID)) ==> err == nil
+//@   ensures[C17] (forall k int trigger(old(ks_i32)[f.pausedProtocols][k]) :: old(ks_i32)[f.pausedProtocols][k] ==> okProto(k)) ==> (forall k int trigger(ks_i32[f.pausedProtocols][k]) :: ks_i32[f.pausedProtocols][k] ==> okProto(k))
 
 //@ func (f *Forwarder) SetUnpausedProtocol(ctx, protocolID) (err)
 //@   requires[inv] f != nil
@@ -53,6 +54,8 @@ package forwarder
 //@   ensures[C17,C17c] err == nil ==> !old(ccPaused(f, ccID.ProtocolId, ccID.CounterpartyId)) && ccSetIs(f, ccID.ProtocolId, ccID.CounterpartyId, true)
 //@   ensures[C17,C17c] err != nil ==> ks_pair == old(ks_pair)
 //@   ensures[C17,C17c] vcc(ccID) && !old(ccPaused(f, ccID.ProtocolId, ccID.CounterpartyId)) ==> err == nil
+//@   ensures[C17] (forall p int, c string trigger(old(ks_pair)[f.pausedCrossChains][p][c]) :: old(ks_pair)[f.pausedCrossChains][p][c] ==> vcc(mk("core.CrossChainID", p, c))) ==>
+//@                (forall p int, c string trigger(ks_pair[f.pausedCrossChains][p][c]) :: ks_pair[f.pausedCrossChains][p][c] ==> vcc(mk("core.CrossChainID", p, c)))
 
 // Genesis (C17): on a store with nothing paused, a valid genesis initialises without error and afterwards
 // exactly the listed protocols and cross-chain identifiers are paused; no other collection is touched.
@@ -202,5 +205,34 @@ package forwarder
 //@ func (f *Forwarder) GetPausedProtocols(ctx) (ids, err)
 //@   requires[inv] f != nil
 //@   walk 0 invariant[C17] len(paused) == widx && forall j int :: 0 <= j && j < widx ==> paused[j] == enumAtI32(pset(f), j)
-//@   ensures[C17] err == nil ==> len(ids) == enumLenI32(pset(f)) && forall j int :: 0 <= j && j < len(ids) ==> ids[j] == enumAtI32(pset(f), j)
+//@   ensures[C17] err == nil ==> len(ids) == enumLenI32(pset(f)) && forall j int trigger(ids[j]) :: 0 <= j && j < len(ids) ==> ids[j] == enumAtI32(pset(f), j)
+//@   ensures[C17] err == nil && enumFactsI32(pset(f))       // the callback never fails, Walk (A-COLL-OK) neither; enumeration facts handed on (A-COLL-ENUM)
 //@   ensures[C17] ks_i32 == old(ks_i32)
+
+//@ macro cset(f) = ks_pair[f.pausedCrossChains]
+//@ func (f *Forwarder) GetAllPausedCrossChainIDs(ctx) (ids, err)
+//@   requires[inv] f != nil
+//@   walk 0 invariant[C17] len(crossChainIDs) == widx
+//@   walk 0 invariant[C17] forall j int trigger(crossChainIDs[j]) :: 0 <= j && j < widx ==> crossChainIDs[j] != nil && allocated(crossChainIDs[j]) && deref(crossChainIDs[j]).ProtocolId == enumAtP(cset(f), j).key1 && deref(crossChainIDs[j]).CounterpartyId == enumAtP(cset(f), j).key2
+//@   ensures[C17] err == nil && enumFactsP(cset(f)) && len(ids) == enumLenP(cset(f))
+//@   ensures[C17] forall j int trigger(ids[j]) :: 0 <= j && j < len(ids) ==> ids[j] != nil && deref(ids[j]).ProtocolId == enumAtP(cset(f), j).key1 && deref(ids[j]).CounterpartyId == enumAtP(cset(f), j).key2
+//@   ensures[C17] ks_pair == old(ks_pair)
+
+// Store invariants: only supported protocols and valid cross-chain identifiers are ever paused (the setters validate).
+//@ macro storedProtocolsOK(f) = forall k int trigger(pset(f)[k]) :: pset(f)[k] ==> okProto(k)
+//@ macro storedCrossChainsOK(f) = forall p int, c string trigger(cset(f)[p][c]) :: cset(f)[p][c] ==> vcc(mk("core.CrossChainID", p, c))
+
+// The exported genesis lists exactly the paused protocols and cross-chain identifiers and is valid.
+//@ func (f *Forwarder) ExportGenesis(ctx) (g)
+//@   requires[inv] f != nil && f.logger != nil && storedProtocolsOK(f) && storedCrossChainsOK(f)
+//@   ensures[C17] g != nil && enumFactsI32(pset(f)) && enumFactsP(cset(f))
+//@   ensures[C17] len(g.PausedProtocolIds) == enumLenI32(pset(f)) && forall j int trigger(g.PausedProtocolIds[j]) :: 0 <= j && j < len(g.PausedProtocolIds) ==> g.PausedProtocolIds[j] == enumAtI32(pset(f), j)
+//@   ensures[C17] len(g.PausedCrossChainIds) == enumLenP(cset(f)) && forall j int trigger(g.PausedCrossChainIds[j]) :: 0 <= j && j < len(g.PausedCrossChainIds) ==>
+//@                  g.PausedCrossChainIds[j] != nil && deref(g.PausedCrossChainIds[j]).ProtocolId == enumAtP(cset(f), j).key1 && deref(g.PausedCrossChainIds[j]).CounterpartyId == enumAtP(cset(f), j).key2
+//@   ensures[C17] protoIdsOK(g)
+//@   ensures[C17] protoIdsDistinct(g)
+//@   ensures[C17] ccIdsOK(g)
+//@   ensures[C17] ccIdsDistinct(g)
+//@   ensures[C17] ks_i32 == old(ks_i32) && ks_pair == old(ks_pair)
+
+//@ lemma[C17] enumRoundTripP: forall S (Array Int (Array String Bool)), p int, c string :: enumFactsP(S) ==> (S[p][c] <==> (exists j int :: 0 <= j && j < enumLenP(S) && enumAtP(S, j).key1 == p && enumAtP(S, j).key2 == c))
